@@ -53,7 +53,7 @@ def getdataResult (tbl : List GdEntry) (callId ds : Nat) (p : Bytes) : Option In
 /-- well-formedness of one table row: everything the copy needs -/
 def GdEntry.Safe (e : GdEntry) : Prop :=
   match e.check with
-  | .exact sizes => ∀ n ∈ sizes, n ≤ e.alloc
+  | .exact sizes => e.alloc ∈ sizes ∧ ∀ n ∈ sizes, n ≤ e.alloc   -- the full structure is accepted, nothing longer is
   | .valid main item max fieldOff fieldW _ =>
       main ≤ e.alloc ∧ item * max ≤ main ∧ fieldOff + fieldW ≤ main - item * max ∧ 0 < item
   | .noData => True
